@@ -29,6 +29,11 @@ def run_real(prog, horizon, envf=None, envb=None, watch=(), limit=20.0):
         return text, br, None
     rr = real.run(br.houses, tick=prog.get("tick", 0.125), horizon=horizon,
                   env_front=env_fn_real(envf), env_back=env_fn_real(envb), watch=watch, limit=limit)
+    if rr.outcome == "watchdog":         # machine stall or genuine hang? rebuild and retry once with a 12x limit
+        br = real.build_text(text)
+        if br.ok:
+            rr = real.run(br.houses, tick=prog.get("tick", 0.125), horizon=horizon,
+                          env_front=env_fn_real(envf), env_back=env_fn_real(envb), watch=watch, limit=limit * 12)
     return text, br, rr
 
 
